@@ -1,6 +1,6 @@
 # C09 — element properties behave as a per-element ordered key-value map
 import vlib
-from checks.db_common import run_db
+from checks.db_common import run_db, spec_level
 
 META = dict(
     engine="coq+hx_core",
@@ -28,6 +28,8 @@ def run(ctx):
     n, steps = (150, 30) if ctx.tier == "quick" else (4000, 60)
     r = run_db(ctx, PROFILE, n, steps)
     failures = [f for f in r["failures"] if f["cls"].startswith(CLASSES) or f["cls"] in COMMON]
+    # the validated database model is the proved specification: a result that differs from it is a violation with the history
+    failures += [f for f in spec_level(r) if f["cls"] == "model-mismatch"][:3]
     return dict(
         evaluations=r["cases"], distinct_nontrivial=r["nontrivial"], samples=r["samples"], dist=r["dist"],
         rule="%d generated query histories (profile %s, <= %d steps, mostly-valid operations over live ids/aliases plus an invalid stream); every query "
